@@ -33,13 +33,9 @@ where
     match r {
         Ok(case) => {
             assert!(C::same_eps(&x, &*case), "C09: backing memory unchanged while the structure is in use");
-            #[cfg(kani)]
-            let p = unsafe { LAST_ALLOC } as *const u8;
-            #[cfg(kani)]
-            assert!(kani::mem::can_dereference(p), "C09: backing memory stays allocated while the owner is alive");
+            assert!(unsafe { N_ALLOC >= 1 && FREED == 0 }, "C09: backing memory stays allocated while the owner is alive");
             drop(case);
-            #[cfg(kani)]
-            assert!(!kani::mem::can_dereference(p), "C09: backing memory is released when its owner is dropped");
+            assert!(unsafe { FREED } == 1, "C09: backing memory is released exactly once when its owner is dropped");
         }
         Err(e) => { core::mem::forget(e); assert!(false, "HARNESS: valid file loads"); }
     }
@@ -53,12 +49,11 @@ where
     let (_x, path) = file_of::<C>();
     let r = U::load_mem(&path);
     let failed = r.is_err();
-    match r { Ok(c) => { core::mem::forget(c); } Err(e) => { drop(e); } }
+    match r { Ok(c) => { core::mem::forget(c); } Err(e) => { core::mem::forget(e); } }
     assert!(failed, "HARNESS: loading as a different type fails");
-    #[cfg(kani)]
     unsafe {
         assert!(N_ALLOC >= 1 && !LAST_ALLOC.is_null(), "HARNESS: backing block captured");
-        assert!(!kani::mem::can_dereference(LAST_ALLOC as *const u8), "C09: a failed load leaks the backing region");
+        assert!(FREED == 1, "C09: a failed load must release the backing region exactly once (0 = leak, 2 = double free)");
     }
 }
 
@@ -74,11 +69,10 @@ where
     let path = put_file(&s.buf, if CUT < n { CUT } else { n });
     let r = <C::T>::load_mem(&path);
     let failed = r.is_err();
-    match r { Ok(c) => { core::mem::forget(c); } Err(e) => { drop(e); } }
+    match r { Ok(c) => { core::mem::forget(c); } Err(e) => { core::mem::forget(e); } }
     assert!(failed, "HARNESS: corrupt file is refused");
-    #[cfg(kani)]
     unsafe {
-        assert!(!kani::mem::can_dereference(LAST_ALLOC as *const u8), "C09: a failed load leaks the backing region");
+        assert!(FREED == 1, "C09: a failed load must release the backing region exactly once (0 = leak, 2 = double free)");
     }
 }
 
@@ -99,11 +93,11 @@ crate::fs_harness!(c09_fail_read_error @ 64 => {
     unsafe { FILE_OVER = 5; }
     let r = <u32>::load_mem(&path);
     let failed = r.is_err();
-    match r { Ok(c) => { core::mem::forget(c); } Err(e) => { drop(e); } }
+    match r { Ok(c) => { core::mem::forget(c); } Err(e) => { core::mem::forget(e); } }
     #[cfg(kani)]
     unsafe {
         assert!(failed, "C09: a file that ends early is refused");
-        assert!(!kani::mem::can_dereference(LAST_ALLOC as *const u8), "C09: a failed load leaks the backing region");
+        assert!(FREED == 1, "C09: a failed load must release the backing region exactly once (0 = leak, 2 = double free)");
     }
 });
 
@@ -176,14 +170,19 @@ crate::fs_harness!(c09_twin_reach @ 64 => {
     let r = <u32>::load_mem(&path);
     match r {
         Ok(case) => {
-            #[cfg(kani)]
-            let p = unsafe { LAST_ALLOC } as *const u8;
             drop(case);
-            #[cfg(kani)]
-            assert!(kani::mem::can_dereference(p), "TWIN: must be violated (memory is released on drop)");
-            #[cfg(not(kani))]
-            assert!(false, "TWIN");
+            assert!(unsafe { FREED } == 0, "TWIN: must be violated (memory is released on drop)");
         }
         Err(e) => { core::mem::forget(e); }
     }
+});
+
+/// Debug aid: the dealloc stub sees the release of a boxed 64-aligned block.
+crate::fs_harness!(c09_dbg_box @ 8 => {
+    let l = std::alloc::Layout::from_size_align(64, 64).unwrap();
+    let v = unsafe { Vec::<maligned::A64>::from_raw_parts(std::alloc::alloc(l) as *mut maligned::A64, 1, 1) };
+    let b = v.into_boxed_slice();
+    assert!(unsafe { N_ALLOC == 1 && FREED == 0 }, "DBG: recorded");
+    drop(b);
+    assert!(unsafe { FREED } == 1, "DBG: release counted");
 });
